@@ -16,6 +16,7 @@ import (
 	"os"
 	"sort"
 	"strings"
+	"time"
 )
 
 // A Case is one operation on one version with tokenised arguments.
@@ -43,17 +44,34 @@ func register(prop string, g generator, ops map[string]runner) {
 	}
 }
 
-func runCase(c *Case) (obs []string) {
+// caseBudget is the wall-clock budget of one case; a case that exceeds it is observed as TIMEOUT (the model
+// proves termination of every generated case, so this is a disagreement, never a normal-looking value).
+var caseBudget = 8 * time.Second
+
+// timeouts counts cases that exceeded the budget; generation stops after a few (each costs the whole budget).
+var timeouts int
+
+func runCase(c *Case) []string {
 	r, ok := runners[c.Prop+"/"+c.Op]
 	if !ok {
 		return []string{"NOOP"}
 	}
-	defer func() {
-		if e := recover(); e != nil {
-			obs = []string{"PANIC", sanitize(fmt.Sprint(e))}
-		}
+	done := make(chan []string, 1)
+	go func() {
+		defer func() {
+			if e := recover(); e != nil {
+				done <- []string{"PANIC", sanitize(fmt.Sprint(e))}
+			}
+		}()
+		done <- r(c)
 	}()
-	return r(c)
+	select {
+	case obs := <-done:
+		return obs
+	case <-time.After(caseBudget):
+		timeouts++
+		return []string{"TIMEOUT"}
+	}
 }
 
 func sanitize(s string) string {
@@ -93,6 +111,9 @@ func main() {
 		defer w.Flush()
 		id := 0
 		g(*tier, NewRng(*seed), func(c Case) {
+			if timeouts >= 3 {
+				return
+			}
 			c.Prop = *prop
 			id++
 			obs := runCase(&c)
